@@ -39,6 +39,9 @@ pub struct Case {
     /// joints fall into the classes selected by these masks (bit = sign pattern of J1, J3, J5) are slowed down, so that another strategy finishes first
     #[serde(default)]
     pub slow: (u8, u8),
+    /// poses whose rotation is handed over in its other quaternion representative (-q, the same rotation): bit i = pose i (landing, strokes..., parking)
+    #[serde(default)]
+    pub neg_q: u8,
 }
 
 /// Kinematics wrapper that delays `inverse_continuing` for previous joints of selected branch classes (see Case::slow).
@@ -231,7 +234,7 @@ impl Property for C12 {
     fn rule(&self) -> String {
         "model-based histories: slim box-bodied robots with limits (non-wrapping windows; two sets in nine shifted so that windows reach beyond +-pi, one in nine with wrist windows J4/J6 from a little below zero to beyond +pi and the start in their lower part); start inside the limit box; landing / 0..4 stroke poses / parking = model FK of a generated joint-space polyline (per-joint steps small (<= 0.15 rad) => feasible, or up to 1 rad => may fail; one segment in 14 turns the tool in place (J6 only), one repeats the pose); \
          check steps 0.01..0.2 m / 1..20 degrees, cost limit 2..30 degrees, recursion depth 0..8, include_linear_interpolation in {true,false}, transition coefficients default or random; obstacle layouts free / box at 3 x safety distance from the tool at a path posture / box on the tool \
-         at an interpolated posture or (one in four) exactly at a stroke pose; RRT step 2..8 degrees and budget 50..2000; every plan is run under rayon pools of 1, 2, 4 and 16 threads, twice each; in the second run under 2, 4 and 16 threads the harness slows down the IK calls of some strategies (selected by the sign pattern of J1/J3/J5 of their joints), so that the order in which strategies finish changes. Oracle: validity predicate over every waypoint of every returned plan. \
+         at an interpolated posture or (one in four) exactly at a stroke pose; poses handed over as q or -q (one case in three; one in six with a cost limit below one check step and 7..9 bisection levels); RRT step 2..8 degrees and budget 50..2000; every plan is run under rayon pools of 1, 2, 4 and 16 threads, twice each; in the second run under 2, 4 and 16 threads the harness slows down the IK calls of some strategies (selected by the sign pattern of J1/J3/J5 of their joints), so that the order in which strategies finish changes. Oracle: validity predicate over every waypoint of every returned plan. \
          Non-trivial: a successful plan with >= 1 interpolated waypoint (or, with include=false, a successful plan)."
             .into()
     }
@@ -276,8 +279,22 @@ impl Property for C12 {
             (0.01..0.2f64, 1.0..20.0f64, 2.0..30.0f64, 0u8..9, any::<bool>()),
             (0u8..3, prop_oneof![3 => 0.0..1.0f64, 1 => -1.0..-0.01f64], 2.0..8.0f64, prop_oneof![Just(50u32), Just(500u32), Just(2000u32)]),
             prop_oneof![2 => Just(None), 1 => prop::array::uniform6(0.5..1.5f64).prop_map(Some)],
+            // one case in six: a stroke that needs deep bisection (cost limit below the cost of one check step, 7..9 levels), poses handed over as q / -q
+            prop_oneof![4 => Just((0u8, None)), 1 => any::<u8>().prop_map(|m| (m, None)), 1 => (1u8..=254, 0.45..1.0f64, 7u8..=9, 3.0..10.0f64).prop_map(|(m, f, d, st)| (m, Some((f, d, st))))],
         )
-            .prop_map(|(scene, (limits, wrist), mut start_u, deltas, (check_step_m, check_step_deg, max_cost_deg, depth, include), (obstacle, obstacle_at, rrt_step_deg, rrt_max_try), coeffs)| {
+            .prop_map(|(scene, (mut limits, wrist), mut start_u, deltas, (check_step_m, mut check_step_deg, mut max_cost_deg, mut depth, mut include), (obstacle, obstacle_at, rrt_step_deg, rrt_max_try), coeffs, (neg_q, deep))| {
+                if let Some((f, d, st)) = deep {
+                    check_step_deg = st;
+                    max_cost_deg = (st * f).max(2.5);
+                    depth = d;
+                    include = true;
+                    // wrist axes that may turn more than a whole turn (+-225 degrees, as on many arms)
+                    for k in [3usize, 5] {
+                        limits.from[k] = -3.93;
+                        limits.to[k] = 3.93;
+                        start_u[k] = 0.35 + 0.3 * start_u[k];
+                    }
+                }
                 if wrist {
                     // start in the lower part of the wrist windows
                     start_u[3] *= 0.3;
@@ -299,6 +316,7 @@ impl Property for C12 {
                 rrt_max_try,
                 coeffs,
                 slow: ((start_u[0] * 251.0) as u8 | 1, (start_u[1] * 251.0) as u8 | 2),
+                neg_q,
                 }
             })
             .boxed()
@@ -330,9 +348,20 @@ impl Property for C12 {
         let scene_robot = &c.scene.robot;
         let base = c.scene.base_iso();
         let n = s.poses.len();
-        let land = to_na(&s.poses[0]);
-        let park = to_na(&s.poses[n - 1]);
-        let strokes: Vec<_> = s.poses[1..n - 1].iter().map(to_na).collect();
+        // poses come from different sources: some hand their rotation over as -q (negative scalar part), the same rotation
+        let handed = |i: usize| {
+            let mut p = to_na(&s.poses[i]);
+            if c.neg_q >> (i % 8) & 1 == 1 {
+                p.rotation = nalgebra::UnitQuaternion::new_unchecked(-p.rotation.into_inner());
+            }
+            p
+        };
+        if (0..n).any(|i| c.neg_q >> (i % 8) & 1 == 1) && (0..n).any(|i| c.neg_q >> (i % 8) & 1 == 0) {
+            ctx.class("poses handed over in mixed quaternion representatives (q / -q)");
+        }
+        let land = handed(0);
+        let park = handed(n - 1);
+        let strokes: Vec<_> = (1..n - 1).map(handed).collect();
         let coeffs = c.coeffs.unwrap_or(DEFAULT_TRANSITION_COSTS);
         let max_cost = c.max_cost_deg.to_radians();
         let rrt_step = c.rrt_step_deg.to_radians();
